@@ -268,7 +268,10 @@ class ndarray:
                     if e is False: return old(J)
                     if e is not True: conds.append(e)
                 vi[v] = i
-            newv = core.cast(getv(tuple(vi)), dt)
+            raw = getv(tuple(vi))
+            if dt.kind == 'f' and isinstance(raw, SFloat) and raw.lossy is not None and raw.lossy < 8 * dt.itemsize:
+                core.NARROW_FLOWS.append((raw.lossy, 8 * dt.itemsize))
+            newv = core.cast(raw, dt)
             if not conds: return newv
             return Ite(core.And(*conds), newv, old(J))
         self.st.set(newfn)
@@ -520,7 +523,7 @@ def _binop(a, b, f, div=False, cmp=False, shift=False, pow_=False):
 def _weak(x, other):
     """dtype a python/symbolic scalar takes against an array dtype (NEP 50 weak scalars)"""
     if isinstance(x, (SBV,)): return x.dtype
-    if isinstance(x, SFloat): return x.dtype if False else (other if other.kind == 'f' else _rnp.dtype('float64'))
+    if isinstance(x, SFloat): return x.dtype
     if isinstance(x, (bool, _rnp.bool_, SBool)): return _rnp.dtype('bool')
     if isinstance(x, _rnp.generic): return x.dtype
     if isinstance(x, (int, SInt)):
@@ -738,9 +741,17 @@ def _div_exact(total, rest):
     return None
 
 # --------------------------------------------------------------------------- creation
+def _dim(d):
+    if isinstance(d, _rnp.integer): return int(d)
+    if isinstance(d, SInt): return mk_int(d.z)
+    if isinstance(d, SBV):
+        c = conc(d.z)
+        return int(c) if c is not None else mk_int(d.as_int().z)
+    if isinstance(d, ndarray): return _dim(d.item())
+    return d
 def _shape_tuple(shape):
-    if isinstance(shape, (int, SInt, _rnp.integer)): shape = (shape,)
-    return tuple(int(d) if isinstance(d, _rnp.integer) else (mk_int(d.z) if isinstance(d, SInt) else d) for d in shape)
+    if isinstance(shape, (int, SInt, SBV, _rnp.integer)): shape = (shape,)
+    return tuple(_dim(d) for d in shape)
 
 def _zero(dt):
     dt = _rnp.dtype(dt)
@@ -1229,9 +1240,14 @@ def matmul(a, b):
     elif b.ndim == 1: r = r[:, 0]
     return r
 
+_pinv_ctr = itertools.count()
 class _Linalg:
     @staticmethod
-    def pinv(a): raise NeedsContract('numpy.linalg.pinv (uninterpreted dependency)')
+    def pinv(a):
+        """trusted dependency: an uninterpreted matrix of the same shape (only determinism is assumed)"""
+        k = next(_pinv_ctr); f = z3.Function('PINV%d' % k, z3.IntSort(), z3.IntSort(), z3.RealSort())
+        t = ndarray.fresh(a.shape, lambda i: SFloat(f(zi(i[0]), zi(i[1])), 'float64'), 'float64'); t.pinv_of = a; t.uf = f
+        return t
 linalg = _Linalg()
 class _FFT:
     def __getattr__(self, n): raise NeedsContract('numpy.fft.%s (uninterpreted dependency)' % n)
